@@ -33,7 +33,9 @@ claim("C01", "proof",
       "(Props/CutStrLit.lean: cutStrLit_eq under BoundsOk, which every parsed command line satisfies, and fewer than 2^31 fields, shown necessary by cutStrLit_length_necessary). CAPSTONE (Props/WholeLit.lean): "
       "tucProgramLit — the whole program assembled ONLY from the statement-level transcriptions (parse_args, dispatch, bstr's for_byte_record / std's read_until over a segmented reader, cut_str, the fast lane, the -M loop, both -l "
       "algorithms, byte mode) — equals tucMain for every argument vector, input and segmentation into non-empty reads on a decidable domain (records below the i32 limits); corollaries: never panics or hangs there, chunk "
-      "independence of the whole program for every engine, and the end-to-end specification theorems transported to it (tucProgramLit_fields_eq_spec).",
+      "independence of the whole program for every engine, and the end-to-end specification theorems transported to it (tucProgramLit_fields_eq_spec). "
+      "Props/WholeLit2.lean removes the four remaining normal-form callees inside it (the text helpers over memmem's iterator, the regex twins and replace_all, serde_json / core UTF-8 validation, the machine-integer try_into_range / matches / unpack / complement, print_bof, "
+      "the bounds-list scanner): tucProgramLit2_eq for every alignment oracle, argv, input and segmentation on InDomain2.",
       TIE,
       "Lean 4 theorems over a hand-written model + differential correspondence + executed abstract specification as oracle", "§4 C01")
 
